@@ -1,6 +1,7 @@
 pub mod expr;
 pub mod list;
 pub mod num;
+pub mod progs;
 pub mod rngs;
 pub mod store;
 pub mod tok;
